@@ -237,6 +237,21 @@ FAMILIES = {
     "smart_quotes": (rep("\"a\" 'b' "), ["process_inlines", "smartquotes"], ["typographer"]),
     "replacements": (rep("(c) -- ... +- "), ["replace", "replace_rare", "replace_scoped"], ["typographer"]),
     "linkify_text": (rep("http://a.b/c "), ["linkify"], ["linkify"]),
+    # many separate blocks that each begin with an unclosed bracket (every one is offered to the reference-definition rule)
+    "open_bracket_paragraphs": (rep("[a\n\n"), ["reference"], []),
+    "open_bracket_items": (rep("- [a\n"), ["reference"], []),
+    "open_bracket_after_heading": (rep("# h\n[*a*\n"), ["reference"], []),
+    "open_bracket_quotes": (rep("> [a\n\n"), ["reference"], []),
+    "open_bracket_lines": (rep("[a\n"), ["reference"], []),
+    "open_bracket_escaped_close": (rep("[a\\]\n\n"), ["reference"], []),
+    # a quote directly inside a list item, ended by another block instead of a blank line
+    "item_quote": (rep("- > a\n"), ["blockquote"], []),
+    "item_quote_hr": (rep("1. > q\n   ***\n"), ["blockquote"], []),
+    "item_quote_heading": (rep("- > a\n  # h\n"), ["blockquote"], []),
+    "item_quote_fence": (rep("- > a\n  ```\n  c\n  ```\n"), ["blockquote"], []),
+    "item_item_quote": (rep("- - > a\n"), ["blockquote"], []),
+    "quote_item_quote": (rep("> - > a\n"), ["blockquote"], []),
+    "item_quote_next_item_para": (rep("- > a\n- b\n"), ["blockquote"], []),
 }
 
 
